@@ -1381,9 +1381,20 @@ def _attempt_table(ctx, fn, rid, quals):
     """run a table evaluation.  When the evaluator refuses a construct, that is an error only on code the evaluation was confirmed on (the functions
     are the snapshot's): on restructured code the refusal is noted and the structural rules alone decide, as they did before the evaluator existed."""
     from .. import novelty as _nov
+    import os
+    err = None
     try:
         return bool(fn(ctx, rid))
-    except AnalysisError as e:
+    except RecursionError:
+        err = "evaluation too deep"
+    except AnalysisError as e0:
+        err = str(e0)
+    except Exception as e0:          # an operation the evaluator did not anticipate: a refusal, never a crash of the check
+        if os.environ.get("TYVERIF_RAISE"):
+            raise
+        err = "evaluator: %s: %s" % (type(e0).__name__, str(e0)[:120])
+    if True:
+        e = err
         moved = 0
         for rel, q in quals:
             n_ = _nov.novelty(ctx.repo.mod(rel).tree, rel, q)
